@@ -93,6 +93,8 @@ REACH_PROBES = ["redefined_in_slot", "closure_dropped_from_container", "containe
                 "app_main_deleted_sibling_on_disk", "app_main_commented_sibling_on_disk", "app_sibling_no_longer_imported",
                 "app_restored", "unstarted_service_of_stopped_function_names_live_service",
                 "closure_referenced_by_cell_only", "cell_variable_deleted", "cell_variable_overwritten"]
+# probes that describe the situation of a repaired defect (C09-F9); they can only fire while it is present
+SYMPTOM_PROBES = ["unstarted_service_of_stopped_function_names_live_service"]
 SHRINK_LISTS = [["ops"], ["spec", "templates"]]
 
 KINDS = ["ev", "st", "st2", "time", "per", "mqtt", "hook", "svc", "shr"]
